@@ -386,6 +386,10 @@ CORPUS_B = [
     ['def f(p):', '    with _cm(⟦1⟧p) as a, _cm(⟦2⟧a) as b:', '        return ⟦3⟧b', '⟦4⟧f(1)'],
     # star-import cycle of project modules (seeded C01-r2-1)
     ['from gencyca import *', '⟦1⟧cyc_a', '⟦2⟧cyc_b'],
+    # a star-imported name read BEFORE the module's own later rebinding of it (seeded C01-r4-2)
+    ['from genlib import *', 'plain = ⟦1⟧lib_f', 'def lib_f(*a):', '    return ⟦2⟧plain(*a)', 'for lib_a in [⟦3⟧lib_a, 2]:', '    pass', '⟦4⟧lib_f(1)'],
+    # names a project module binds on only some paths are exported by its star import (seeded C01-r5-1)
+    ['from genlib import *', '⟦1⟧lib_c', '⟦2⟧lib_d', '⟦3⟧lib_e', '⟦4⟧lib_g'],
 ]
 
 KNOWN = {
